@@ -563,6 +563,22 @@ def _fn_aliases(j, sigs, anchor_names):
             far.sort(reverse=True)
             if len(far) == 1 or (len(far) > 1 and far[0][0] > far[1][0]):
                 b = far[0][1]
+        if not b:
+            # a method of a renamed private trait: `<u8 as M::DecimalWidth>::decimal_width` for
+            # `<u8 as M::DigitCount>::digit_count` - the one new trait method on the same Self type with
+            # this signature
+            import re as _re2
+            ma = _re2.match(r"^<(.*) as ([A-Za-z_0-9:]+)(<.*>)?>::(\w+)$", a)
+            if ma:
+                tm = []
+                for p in new:
+                    mp = _re2.match(r"^<(.*) as ([A-Za-z_0-9:]+)(<.*>)?>::(\w+)$", p)
+                    f = fns[p]
+                    if mp and p not in out and mp.group(1) == ma.group(1) and mp.group(2).rsplit("::", 1)[0] == ma.group(2).rsplit("::", 1)[0] and \
+                            f.get("inputs", []) == sg["inputs"] and f.get("output", "") == sg["output"] and f.get("safety") == sg["safety"]:
+                        tm.append(p)
+                if len(tm) == 1:
+                    b = tm[0]
         if b:
             out[b] = a
     return out
